@@ -33,6 +33,7 @@ func runC15(c *Ctx) {
 	// folds that decide index expressions the table only reviews
 	c12Suffixed(c)
 	c07Read(c)
+	c07DFA(c) // executes the table index of the step function for every reachable state x byte
 	readerReadRules(c, "C15")
 	readLineRules(c, "C15")
 	c03ParseClose(c)
